@@ -1,4 +1,5 @@
 pub mod alloc;
+pub mod cli;
 pub mod genreg;
 pub mod model;
 pub mod p_decode;
